@@ -209,6 +209,7 @@ class World:
             self.all_delivered.append((pid, int(sig), self.mono))
             if int(sig) == int(_signal.SIGKILL):
                 k["st"] = "Z"
+                self.chld_pending = True
                 k["status"] = int(_signal.SIGKILL)
                 self.events.append(("death", pid, k["status"], self.mono))
 
@@ -262,6 +263,14 @@ class World:
             pid = run[lab[1] % len(run)]["pid"]
             lab = ("X", pid, lab[2]) if kind == "Xk" else ("N", pid)
             kind = lab[0]
+        if kind == "Sp":          # a child of the master that is not a worker (started by a server hook, say) appears - and dies:
+            # it is reaped first by the next SIGCHLD handler run, before any worker that died in the same batch
+            pid = 9000 + self.nlabels
+            self.kids.insert(0, {"pid": pid, "st": "Z", "status": int(lab[1]) if len(lab) > 1 else 0, "sigs": [], "master": False, "stray": True})
+            self.chld_pending = True
+            self.resolved.append(("Sp", pid))
+            self.nlabels += 1
+            return
         if kind == "LTk":         # a SIGTERM is swallowed: the child was still running the handlers inherited from the master
             told = [k for k in self.running(master=False) if int(_signal.SIGTERM) in k["sigs"]]
             if told:
@@ -283,6 +292,7 @@ class World:
         self.resolved.append(tuple(lab))
         self.nlabels += 1
         if kind == "C":
+            self.chld_pending = False
             self.pending_obs = True
             self.in_handler += 1
             try:
@@ -294,6 +304,7 @@ class World:
             k = self.kid(lab[1])
             if k is not None and k["st"] == "R":
                 k["st"] = "Z"
+                self.chld_pending = True
                 k["status"] = int(lab[2])
                 self.events.append(("death", lab[1], int(lab[2]), self.mono))
         elif kind == "S":
@@ -631,7 +642,7 @@ def flat(trace):
 FATAL = (int(_signal.SIGTERM), int(_signal.SIGQUIT), int(_signal.SIGABRT), int(_signal.SIGINT))
 
 
-def make_settle(loops):
+def make_settle(loops, strict_sigchld=False):
     """Policy used after the scripted part of a schedule (mirrors fair_env / settle_labels of Model/Arbiter.v):
     at the top of the main loop (and in the naps of stop()) every running child that was told to stop exits
     with status 0 and SIGCHLD is delivered if there is anything to reap; when the master is about to sleep in
@@ -652,7 +663,11 @@ def make_settle(loops):
             dying = [k for k in world.kids if k["st"] == "R" and any(s in FATAL for s in k["sigs"])]
             for k in dying:
                 q.append(("X", k["pid"], 0))
-            if dying or any(k["st"] == "Z" for k in world.kids):
+            # SIGCHLD is raised by a death, not by the existence of a zombie: a handler run that leaves zombies behind is not
+            # followed by another one unless a further child dies (the signal is not queued per child)
+            # (strict_sigchld: oracle-only schedules; the default mirrors settle_labels of Model/Arbiter.v, which delivers
+            #  SIGCHLD whenever there is anything to reap)
+            if dying or (getattr(world, "chld_pending", False) if strict_sigchld else any(k["st"] == "Z" for k in world.kids)):
                 q.append(("C",))
         elif code == Y_SELECT:
             for k in world.kids:
